@@ -179,6 +179,15 @@ func Explore(c *fw.Ctx, mon Monitors) {
 	trees := Trees()
 	reqs := Requests(c.Thorough())
 	c.Note("universe", fmt.Sprintf("%d trees x %d requests per tree (full header product: %v)", len(trees), len(reqs), c.Thorough()))
+	// listings must describe each resource as the resource describes itself:
+	// a fixed tree mixing known and unknown media types, in every lexical order
+	if c.Shard == 0 || c.NShardsOr1() == 1 {
+		mixed := davtree.Tree{"/a.html": {Data: "<p>"}, "/b": {Data: "bb"}, "/c.png": {Data: "png"}, "/d": {Data: ""}, "/e": {Dir: true},
+			"/e/a": {Data: "x"}, "/e/b.txt": {Data: "text"}, "/e/c": {Data: "y"}, "/e/d.css": {Data: "z"}, "/f.txt": {Data: "t"}, "/g": {Dir: true}, "/g/h.json": {Data: "{}"}, "/g/i": {Data: "i"}}
+		if err := e.Materialise(mixed); err == nil {
+			e.ListingConsistency("mixed-media-types", mixed)
+		}
+	}
 	// a slice of the universe also runs on the disk-backed temp dir
 	var disk *Env
 	if d, err := NewDiskEnv(c, mon, "explore"); err == nil {
@@ -229,6 +238,7 @@ func Explore(c *fw.Ctx, mon Monitors) {
 // --- random histories -------------------------------------------------------
 
 var hostileNames = []string{
+	"a\uFFFEb.txt", "\uFFFF", "m.png", "n.html", "o",
 	"a", "b", "c.txt", "d e", "p%q", "h#i", "q?r", "s;t", "u+v", `"w"`, "x<&>y", "é€ü", "..name", "a%2Fb", "n'o", ".hidden", "z.html", "back\\slash", "中文", "sp ace.txt",
 }
 
@@ -407,6 +417,7 @@ func Histories(c *fw.Ctx, mon Monitors, n, steps int) {
 				c.Observe("histories", "distinct-tree-states-visited", 1)
 			}
 		}
+		e.ListingConsistency(fmt.Sprintf("history %d end", hi), t)
 		c.Observe("histories", "run", 1)
 		c.Observe("histories", "steps", len(trace))
 	}
